@@ -153,9 +153,10 @@ def stringTyped (cfg : Cfg) (v : List Char) (tag : Nat) (st : Style) : Option (L
   else if cfg.noSchema && maybeNotString v st && tag != tagString then none
   else stringOfScalar cfg v tag
 
-/-- identifier (struct field name): `deserialize_str` -/
-def identOf : ENode → Option (List Char)
-  | .scalar v tag _ st _ _ => if tag == tagNull || scalarIsNullish v st then none else some v
+/-- identifier (struct field name): a key node is read as a field name exactly as a scalar node is read
+as a string (`deserialize_str` = `deserialize_string` on scalars) -/
+def identOf (cfg : Cfg) : ENode → Option (List Char)
+  | .scalar v tag _ st _ _ => stringTyped cfg v tag st
   | _ => none
 
 def anyScalar (cfg : Cfg) (v : List Char) (tag : Nat) (st : Style) : Option Val :=
@@ -267,7 +268,7 @@ def fieldEntriesFrom (cfg : Cfg) (fs : FieldFns) (deny : Bool) : List (ENode × 
     Option (List (String × Val))
   | [], acc => some acc
   | (k, v) :: es, acc =>
-    match identOf k with
+    match identOf cfg k with
     | none => none
     | some name =>
       match fs.find? (fun f => f.1.toList == name) with
